@@ -72,7 +72,10 @@ func Run(s Script, base world.Cfg, opt Options, out io.Writer) (*world.World, er
 	return w, nil
 }
 
-func cfgJSON(c world.Cfg) interface{} {
+func cfgJSON(c world.Cfg) interface{} { return CfgJSON(c) }
+
+// CfgJSON renders a configuration for the trace (TLC's Json module has no null).
+func CfgJSON(c world.Cfg) interface{} {
 	bz, _ := json.Marshal(c)
 	var v map[string]interface{}
 	_ = json.Unmarshal(bz, &v)
